@@ -158,8 +158,113 @@ def show_codec_event(e):
     return "msg:" + hx(e[1]) if e[0] == "msg" else "err:" + e[1]
 
 
+class RefHttpServer:
+    """HttpServer::onMessage as its text reads: ONE parseRequest per delivery (lines are consumed until a
+    request is complete, a request line is bad, or no complete line is left), 400 + shutdown on a bad request
+    line, the callback + response + reset on a complete request; send() only while connected."""
+
+    def __init__(self):
+        self.buf, self.cur, self.connected = b"", None, True
+
+    def deliver(self, chunk):
+        """returns (request events, bytes expected on the wire or None = nothing)"""
+        self.buf += chunk
+        reqs, wire = [], None
+        while True:
+            i = self.buf.find(b"\r\n")
+            if i < 0:
+                break
+            ln = self.buf[:i]
+            if self.cur is None:
+                m = REQLINE.fullmatch(ln)
+                if not m:
+                    if self.connected:
+                        wire = ("raw", b"HTTP/1.1 400 Bad Request\r\n\r\n")
+                    self.connected = False
+                    break                                  # nothing consumed
+                target = m.group(2)
+                q = target.find(b"?")
+                path, query = (target, b"") if q < 0 else (target[:q], target[q:])
+                self.cur = [m.group(1), 2 if m.group(3) == b"1" else 1, path, query, {}]
+                self.buf = self.buf[i + 2:]
+            else:
+                self.buf = self.buf[i + 2:]
+                c = ln.find(b":")
+                if c >= 0:
+                    self.cur[4][ln[:c]] = ln[c + 1:].strip(CSPACE)
+                    continue
+                req, self.cur = self.cur, None
+                reqs.append(("req", req[0], req[1], req[2], req[3], tuple(sorted(req[4].items()))))
+                conn_h = req[4].get(b"Connection", b"")
+                close = conn_h == b"close" or (req[1] == 1 and conn_h != b"Keep-Alive")
+                resp = demo_callback(req, close)
+                if self.connected:
+                    wire = ("resp", resp)
+                if resp["close"]:
+                    self.connected = False
+                break                                      # one request per delivery
+        return reqs, wire
+
+
+def demo_callback(req, close):
+    """the harness callback (harness/C18_driver.cc demoCallback)"""
+    meth, ver, path, query, hdrs = req
+    if path[:3] == b"/nf":
+        return {"code": 404, "msg": b"Not Found", "close": True, "headers": {}, "body": b""}
+    h = {b"X-Method": meth}
+    if query:
+        h[b"A-Query"] = query
+    return {"code": 200, "msg": b"OK", "close": close or path == b"/close", "headers": h, "body": path}
+
+
+RESPLINE = re.compile(rb"HTTP/1\.1 (\d+) ([^\r\n]*)", re.S)
+
+
+def parse_response(data):
+    """independent response grammar: status-line CRLF *(field ": " value CRLF) CRLF body; None if malformed"""
+    head, sep, body = data.partition(b"\r\n\r\n")
+    if not sep:
+        return None
+    lines = head.split(b"\r\n")
+    m = RESPLINE.fullmatch(lines[0])
+    if not m:
+        return None
+    hs = []
+    for ln in lines[1:]:
+        k, s2, v = ln.partition(b": ")
+        if not s2 or b":" in k:
+            return None
+        hs.append((k, v))
+    d = dict(hs)
+    if b"Content-Length" in d:
+        if not d[b"Content-Length"].isdigit() or int(d[b"Content-Length"]) != len(body):
+            return None
+    return int(m.group(1)), m.group(2), hs, body
+
+
+def check_response(data, resp):
+    """the bytes on the wire against the response the callback built; None or a message"""
+    pr = parse_response(data)
+    if pr is None:
+        return "the response %r does not parse under the reference grammar" % data[:120]
+    code, msg, hs, body = pr
+    if (code, msg, body) != (resp["code"], resp["msg"], resp["body"]):
+        return "response carries (%d, %r, %d body bytes), the callback set (%d, %r, %d)" % (
+            code, msg, len(body), resp["code"], resp["msg"], len(resp["body"]))
+    if resp["close"]:
+        implicit = [(b"Connection", b"close")]
+    else:
+        implicit = [(b"Content-Length", str(len(resp["body"])).encode()), (b"Connection", b"Keep-Alive")]
+    exp = implicit + sorted(resp["headers"].items())
+    if hs != exp:
+        return "response headers %r, expected %r (Connection/Content-Length first, then the map in key order)" % (hs, exp)
+    return None
+
+
 # ------------------------------------------------------------------ oracle
 FLINE = re.compile(r"^F (\S+) r=(\d+) ab=([01])( st=\d+)?$")
+DCONN = re.compile(r"^D (\S+) r=(\d+) conn=([01]) sh=([01])$")
+DSRV = re.compile(r"^D (\S+) sent=(\S+) r=(\d+) conn=([01]) sh=([01]) st=(\d)$")
 
 
 def oracle(case, lines):
@@ -177,6 +282,8 @@ def oracle(case, lines):
     stream = b""
     seen = []
     abandoned_at = None
+    first_err = None
+    srv = RefHttpServer() if kind == "hsrv" else None
     if not lines or not lines[0].startswith("case "):
         return (0, "bad case line")
     for i, op in enumerate(case.ops):
@@ -200,12 +307,83 @@ def oracle(case, lines):
             else:
                 f = [None if x == "~" else bytes_of_spec(x) for x in t[3:7]]
                 exp = encode(tag, rpc_ser(int(t[1]), int(t[2]), f[0], f[1], f[2], f[3], None if t[7] == "~" else int(t[7])))
-            if out != "E " + exp.hex():
+            mo = re.match(r"^E ([0-9a-f]+) p=(\d+) w=(\d+)$", out)
+            if not mo or mo.group(1) != exp.hex():
                 return (i, "fillEmptyBuffer produced %s, the wire format requires %s" % (out[2:], exp.hex()))
+            if int(mo.group(2)) != 4:
+                return (i, "after fillEmptyBuffer on a default Buffer prependableBytes = %s, expected kCheapPrepend - 4 = 4" % mo.group(2))
         elif t[0] == "AD":
             exp = adler32_rfc(bytes_of_spec(t[1]))
             if out != "AD %d" % exp:
                 return (i, "checksum(%s) = %s, RFC 1950 Adler-32 is %d" % (t[1], out[3:], exp))
+        elif t[0] == "RESP":
+            if not out.startswith("RESP "):
+                return (i, "unparsable %r" % out)
+            data = bytes.fromhex(out[5:].split()[0])
+            if len(t) > 6:
+                continue                                   # deliberately ill-formed response: no claim
+            hd = {}
+            if t[5] != "-":
+                for kv in t[5].split(","):
+                    kk, vv = kv.split("=")
+                    hd[bytes_of_spec(kk)] = bytes_of_spec(vv)
+            msg = check_response(data, {"code": int(t[1]), "msg": bytes_of_spec(t[2]), "close": t[3] == "1",
+                                        "headers": hd, "body": bytes_of_spec(t[4])})
+            if msg:
+                return (i, "appendToBuffer: " + msg)
+        elif t[0] == "D" and kind == "conn":
+            m = DCONN.match(out)
+            if not m:
+                return (i, "unparsable %r" % out)
+            chunk = bytes_of_spec(t[1])
+            stream += chunk
+            got = [] if m.group(1) == "-" else m.group(1).split(";")
+            ev, consumed, ab = ref_decode(stream, tag, raw_parse)
+            exp_all = [show_codec_event(e) for e in ev]
+            if first_err is None:
+                exp = exp_all[len(seen):]
+                seen += got
+                if ab:
+                    first_err = exp_all[-1]
+            else:
+                exp = [first_err]          # the stream is abandoned: the same error again, nothing else
+            if got != exp:
+                return (i, "delivery %d reported %s, the reference (first error sticks, stream abandoned) requires %s"
+                        % (i, ";".join(got) or "-", ";".join(exp) or "-"))
+            if int(m.group(2)) != len(stream) - consumed:
+                return (i, "inputBuffer holds %s bytes, the reference leaves %d" % (m.group(2), len(stream) - consumed))
+            if (m.group(3) == "0") != (first_err is not None) or (m.group(4) == "1") != (first_err is not None):
+                return (i, "connected=%s peer-sees-EOF=%s, but an error was %sreported: the default error callback must shut the "
+                           "connection down exactly when the first error is reported" % (m.group(3), m.group(4), "" if first_err else "not "))
+        elif t[0] == "D" and kind == "hsrv":
+            m = DSRV.match(out)
+            if not m:
+                return (i, "unparsable %r" % out)
+            was_connected = srv.connected
+            reqs, wire = srv.deliver(bytes_of_spec(t[1]))
+            exp = ";".join(show_http_event(e) for e in reqs) or "-"
+            if m.group(1) != exp:
+                return (i, "HttpServer handed over %s, one-request-per-delivery reference: %s" % (m.group(1), exp))
+            if wire is None:
+                if m.group(2) != "-":
+                    return (i, "bytes were sent (%s) although %s" % (m.group(2), "the connection was shut down" if not was_connected else "no request completed"))
+            else:
+                if m.group(2) == "-":
+                    return (i, "nothing was sent, expected a %s" % ("400" if wire[0] == "raw" else "response"))
+                data = bytes.fromhex(m.group(2))
+                if wire[0] == "raw":
+                    if data != wire[1]:
+                        return (i, "a bad request line must be answered by exactly %r, got %r" % (wire[1], data[:80]))
+                else:
+                    msg = check_response(data, wire[1])
+                    if msg:
+                        return (i, "HttpServer::onRequest: " + msg)
+            if int(m.group(3)) != len(srv.buf):
+                return (i, "inputBuffer holds %s bytes, the reference leaves %d" % (m.group(3), len(srv.buf)))
+            if (m.group(4) == "1") != srv.connected or (m.group(5) == "1") != (not srv.connected):
+                return (i, "connected=%s peer-sees-EOF=%s, reference: connected=%s" % (m.group(4), m.group(5), srv.connected))
+        elif t[0] == "D":
+            return (i, "D op in a %s case" % kind)
         elif t[0] == "F":
             m = FLINE.match(out)
             if not m:
@@ -500,6 +678,95 @@ class Gen:
         for cuts in segmentations(r, len(s), two_way=2, kway=1):
             self.add("http", "-", [], s, cuts, "http-random")
 
+    def nonempty_chunks(self, stream, cuts):
+        return [c for c in chunks_of(stream, cuts) if c]
+
+    def add_d(self, kind, tagspec, stream, cuts, label, tail=()):
+        self.n += 1
+        ops = ["D " + hx(c) for c in self.nonempty_chunks(stream, cuts)] + ["D " + hx(c) for c in tail if c]
+        if not ops:
+            return
+        self.cases.append(vlib.Case("%s%d" % (kind[0], self.n), "%s %s" % (kind, tagspec), ops, label))
+        self.hist[label] = self.hist.get(label, 0) + 1
+
+    def conn_cases(self, tag, tagspec):
+        """the raw codec with the DEFAULT error callback on a real TcpConnection: valid frames, then one of the
+        reject classes, then more deliveries after the error (the stream is abandoned, the error sticks)"""
+        r = self.rng
+        M = len(tag)
+        pls = [raw_ser(self.rand_msg()) for _ in range(r.randint(0, 3))]
+        good = b"".join(encode(tag, p) for p in pls)
+        victim = encode(tag, raw_ser(self.rand_msg()))
+        what = r.choice(["none", "length-neg", "length-big", "length-small", "checksum", "tag", "payload", "garbage"])
+        if what == "none":
+            bad = b""
+        elif what == "length-neg":
+            bad = struct.pack(">i", r.choice([-1, -(1 << 31)])) + victim[4:]
+        elif what == "length-big":
+            bad = struct.pack(">i", r.choice([MAXLEN + 1, (1 << 31) - 1])) + victim[4:]
+        elif what == "length-small":
+            bad = struct.pack(">i", r.choice([0, M + 3])) + victim[4:]
+        elif what == "checksum":
+            bad = victim[:-1] + bytes([victim[-1] ^ (1 << r.randrange(8))])
+        elif what == "tag" and M:
+            t2 = bytearray(tag)
+            t2[r.randrange(M)] ^= 1 << r.randrange(8)
+            bad = encode(bytes(t2), raw_ser(b"x"))
+        elif what == "payload":
+            bad = encode(tag, b"not-starred")
+        else:
+            bad = bytes(r.randrange(256) for _ in range(r.choice([M + 8, M + 9, 30])))
+        tail = [bytes(r.randrange(256) for _ in range(r.choice([1, 2, 17]))) for _ in range(r.randint(0, 3))]
+        if r.random() < 0.3:
+            tail.append(encode(tag, raw_ser(b"after")))           # a perfectly valid frame after the error: never delivered
+        s = good + bad
+        for cuts in segmentations(r, len(s), two_way=2, kway=1, bytewise=(len(s) <= 60)):
+            self.add_d("conn", tagspec, s, cuts, "conn-" + what, tail)
+
+    def hsrv_cases(self, quick):
+        """the real HttpServer::onMessage on a real TcpConnection: pipelined requests, keep-alive / close /
+        HTTP/1.0, bad request lines, bytes after a shutdown"""
+        r = self.rng
+        s = b""
+        for i in range(r.randint(1, 4)):
+            bad = r.random() < 0.15
+            if bad:
+                s += self.http_request(valid=False) + b"\r\n"
+            else:
+                meth = r.choice(METHODS)
+                target = r.choice([b"/", b"/a", b"/a?x=1", b"/nf", b"/nfx", b"/close", b"/n", b"/close?q", b"/%20"])
+                ver = r.choice([b"HTTP/1.1", b"HTTP/1.1", b"HTTP/1.0"])
+                s += meth + b" " + target + b" " + ver + b"\r\n"
+            for h in self.http_headers():
+                s += h + b"\r\n"
+            if r.random() < 0.5:
+                s += r.choice([b"Connection: close", b"Connection: Keep-Alive", b"Connection:  close  ", b"Connection: keep-alive",
+                               b"connection: close", b"Connection: x", b"Connection: close\r\nConnection: Keep-Alive"]) + b"\r\n"
+            s += b"\r\n"
+        if r.random() < 0.2:
+            s = s[:r.randrange(len(s) + 1)]
+        for cuts in segmentations(r, len(s), two_way=(3 if quick else "all"), kway=2, bytewise=(len(s) <= 80)):
+            self.add_d("hsrv", "-", s, cuts, "hsrv", [b"\r\n"] if r.random() < 0.3 else [])
+
+    def resp_cases(self, quick):
+        r = self.rng
+        ops = []
+        for _ in range(20 if quick else 300):
+            code = r.choice([200, 301, 400, 404, 0, 200, 200])
+            msg = r.choice([b"OK", b"Not Found", b"", b"Moved Permanently", b"with  spaces ", b"x:y", b"\xff\x00"])
+            close = r.choice(["0", "1"])
+            body = bytes(r.randrange(256) for _ in range(r.choice([0, 0, 1, 5, 9, 10, 99, 100, 1000, 1500])))
+            nh = r.choice([0, 0, 1, 2, 4])
+            keys = r.sample([b"X", b"A", b"Content-Type", b"Server", b"a", b"Z-z", b"B", b"", b"X-1"], nh)
+            hs = ",".join("%s=%s" % (hx(k), hx(r.choice([b"v", b"", b"text/html", b"a: b", b" lead", b"\x80"]))) for k in keys) or "-"
+            ops.append("RESP %d %s %s %s %s" % (code, hx(msg), close, hx(body), hs))
+        # ill-formed on purpose (no claim, marked x): LF in the reason phrase, a colon in a field name, a second Content-Length
+        ops += ["RESP 200 4f0a4b 0 61 - x", "RESP 200 4f4b 0 61 583a59=31 x", "RESP 200 4f4b 1 61 436f6e74656e742d4c656e677468=39 x"]
+        for i in range(0, len(ops), 8):
+            self.n += 1
+            self.cases.append(vlib.Case("rs%d" % self.n, "http -", ops[i:i + 8], "http-response"))
+            self.hist["http-response"] = self.hist.get("http-response", 0) + 1
+
     def adler_cases(self, quick):
         r = self.rng
         ops = ["AD -", "AD 00", "AD ff", "AD 61", "AD 57696b697065646961", "AD #ff*5551", "AD #ff*5552", "AD #ff*5553",
@@ -535,6 +802,12 @@ def generate(rng, tier):
         g.http_cases(quick)
     for _ in range(150 if quick else 1500):
         g.http_random()
+    for i in range(60 if quick else 1500):
+        tag, ts = tags[i % len(tags)]
+        g.conn_cases(tag, ts)
+    for _ in range(80 if quick else 1500):
+        g.hsrv_cases(quick)
+    g.resp_cases(quick)
     g.adler_cases(quick)
     return g
 
@@ -556,7 +829,7 @@ def fill_pt(case, impl_lines):
 
 def run_both(impl, model, cases, timeout=3000):
     impl_out, crashes = vlib.run_batch_parallel(impl, cases, timeout=timeout)
-    mcases = [fill_pt(c, impl_out.get(c.cid)) for c in cases]
+    mcases = cases          # the model parses RpcMessage payloads itself (C19_Wire.wire_parse): no verdict is handed over
     model_out, mcrashes = vlib.run_batch_parallel(model, mcases, timeout=timeout,
                                                   pre=["bash", "-c", 'ulimit -s unlimited 2>/dev/null; exec "$0"'])
     return impl_out, crashes, model_out, mcrashes
@@ -585,14 +858,14 @@ def signature(case, lines):
     distinct by (kind+tag, crc of the stream, chunk lengths, events)"""
     stream, lens, evs = b"", [], []
     for op, ln in zip(case.ops, lines[1:]):
-        if op.startswith("F "):
+        if op.startswith(("F ", "D ")):
             b = bytes_of_spec(op[2:])
             stream += b
             lens.append(len(b))
-            m = FLINE.match(ln)
+            m = FLINE.match(ln) or DCONN.match(ln) or DSRV.match(ln)
             if m and m.group(1) != "-":
                 evs.append(m.group(1))
-        elif op.startswith(("E ", "AD ")):
+        elif op.startswith(("E ", "AD ", "RESP ")):
             evs.append(ln)
     if not evs:
         return None
@@ -643,7 +916,7 @@ def run(chk, replay=None):
             idx = next((i for i in range(min(len(li), len(lm or []))) if li[i] != lm[i]), 0)
             corr_bad.append((c, idx, "impl %r vs model %r" % (li[idx] if idx < len(li) else None,
                                                              lm[idx] if lm and idx < len(lm) else None)))
-        elif any(l.startswith("F ") and ("fault" in l or " OOF" in l or "MISSING-PT" in l) for l in lm):
+        elif any(l.startswith(("F ", "D ", "RESP ")) and ("fault" in l or " OOF" in l or "FAULT" in l or "REF-GRAMMAR" in l) for l in lm):
             corr_bad.append((c, 0, "model reports an out-of-bounds read, ran out of fuel, or lacked a parser verdict"))
         s = signature(c, li)
         if s:
@@ -661,19 +934,28 @@ def run(chk, replay=None):
                        "provoking runs. Non-trivial = at least one message/request/error/encoding was produced; distinct by (instance+tag, "
                        "crc32 of the stream, chunk lengths, events)")
     chk.cov["traces_validated_against_impl"] = len(cases) - len(corr_bad)
-    chk.add_obligation("correspondence: extracted C18_Model (codec_feed / http_feed / encode / adler32) == real ProtobufCodecLite, RpcCodec, "
-                       "HttpContext, zlib adler32 on every case, line by line after every chunk", not corr_bad)
+    chk.add_obligation("correspondence: extracted models (codec_feed with C19_Wire.wire_parse for RpcMessage payloads / http_feed / "
+                       "fillEmptyBuffer over the C10 Buffer model / deliver = onMessage over the Buffer model + default error callback / "
+                       "srv_deliver = HttpServer::onMessage / response_bytes / adler32) == real ProtobufCodecLite, RpcCodec, HttpContext, "
+                       "TcpConnection + HttpServer on a socketpair, HttpResponse, zlib adler32 on every case, line by line", not corr_bad)
     chk.add_obligation("oracle: independent reference decoding of every delivered prefix == the implementation's events, unconsumed count, "
                        "abandoned flag; wire format of fillEmptyBuffer; RFC 1950 Adler-32", not oracle_bad)
     chk.trusted("extraction: ExtrOcamlBasic only; extract/util.ml + extract/C18_driver.ml (OCaml 4.13.1)",
-                "harness/C18_driver.cc: error callback = record + abandon (stands for defaultErrorCallback's shutdown); the HTTP caller loop "
-                "(parseRequest; false => abandon; gotAll => deliver, reset, again); #define private public for HttpContext::state_",
+                "harness/C18_driver.cc: kinds raw/pb/rpc/http: error callback = record + abandon, the HTTP caller loop (parseRequest; "
+                "false => abandon; gotAll => deliver, reset, again); kinds conn/hsrv: a real TcpConnection on a socketpair whose handleRead is "
+                "called after each chunk was written to the peer (default error callback; HttpServer::onMessage with demoCallback); "
+                "#define private public for HttpContext::state_, TcpConnection::handleRead, HttpServer::onMessage",
+                "translators lib/gen_consts.py and lib/gen_C18.py (every comparison / assertion / offset argument of onMessage, parse, "
+                "validateChecksum, fillEmptyBuffer, serializeToBuffer, processRequestLine, parseRequest, HttpServer::onMessage/onRequest, "
+                "appendToBuffer; the tag of RpcCodec.cc) over the clang 14 JSON AST",
+                "coq/C19_Wire.v, C19_WireProofs.v (RpcMessage payload format and its round trip; owned by C19, imported read-only)",
                 "translator lib/gen_consts.py (clang 14 JSON AST) for kHeaderLen/kChecksumLen/kMaxMessageLen",
-                "environment: protobuf 3.21 ParseFromArray/serializer (Section variables parse/ser; the instances pb/rpc take protobuf's own "
-                "verdict per payload as the parser), zlib adler32 == RFC 1950 (checked on the AD cases), std::search/std::find/std::map")
+                "environment: protobuf 3.21 ParseFromArray/serializer (Section variables parse/ser in the generic theorems; for the "
+                "instances pb/rpc the model parses with C19_Wire.wire_parse and every payload that occurs is also compared with protobuf's "
+                "own verdict, PT lines), zlib adler32 == RFC 1950 (checked on the AD cases), std::search/std::find/std::map, snprintf")
 
     def shrink(c, pred):
-        fidx = [i for i, o in enumerate(c.ops) if o.startswith(("F ", "E ", "AD "))]
+        fidx = [i for i, o in enumerate(c.ops) if o.startswith(("F ", "E ", "AD ", "D ", "RESP "))]
         keep_other = [i for i in range(len(c.ops)) if i not in fidx]
 
         def build(sel):
@@ -722,5 +1004,6 @@ def run(chk, replay=None):
     return chk.finish(level="proof", assumptions=[
         "protobuf's ParseFromArray / serializer are arbitrary functions parse/ser in the theorems (round trip needs parse (ser m) = Some m)",
         "zlib adler32(1, buf, len) is RFC 1950 Adler-32 (checked by the AD cases, not proved)",
-        "after the first error the stream is abandoned (the error callback shuts the connection down); HttpContext is reset() after gotAll",
+        "kinds raw/pb/rpc/http: after the first error the driver stops calling the decoder (the abandoned-flag decoder of the theorems); "
+        "kinds conn/hsrv: no such convention, the real TcpConnection keeps delivering (C18_error_abandons_stream, C18_http_server_requests_prefix)",
         "the models are tied to the code by regenerated constants and differential execution (testing), not by a verified C++ semantics"])
